@@ -26,6 +26,7 @@ import (
 	"time"
 
 	"github.com/gofiber/fiber/v2"
+	"github.com/versity/versitygw/internal/verifhook"
 	"github.com/versity/versitygw/s3response"
 )
 
@@ -111,6 +112,7 @@ func (w *Webhook) Close() error {
 }
 
 func (w *Webhook) send(event EventSchema) {
+	verifhook.Point("event.send")
 	eventBytes, err := json.Marshal(event)
 	if err != nil {
 		fmt.Fprintf(os.Stderr, "failed to parse event data: %v\n", err.Error())
